@@ -9,6 +9,7 @@ CPython: a disagreement is a MachineryError, never a violation).
 """
 import contextlib
 import functools
+import inspect
 import io
 import os
 import sys
@@ -557,23 +558,31 @@ class Host(_HostBase):
           return R.posval(index_of[tok], tok, npos)
       kval = R.kwval
 
-      # ---- the partial chain as written; layer 1 is the outermost object
-      f = R.base
-      objs = [R.base]
-      layers = rec['layers']
-      for j in range(len(layers), 0, -1):
-        L = layers[j - 1]
-        sp = [pval('s%d' % j)] if L['np'] else []
-        sk = {R.kwname[key]: kval(key, 's%d%s' % (j, key)) for key in L['ks']}
-        f = functools.partial(f, *sp, **sk)
-        if rec['nest'] == 'kept' and j == 2:
-          f.vf_keep = True            # an instance attribute stops functools from flattening
-        objs.insert(0, f)
-      _check_chain(rec, objs, R, pval, kval)     # model validation: CPython built the specified chain
-      snapshot = [(o.func, o.args, dict(o.keywords)) for o in objs[:-1]]
-      chain_objs = objs if rec['nl'] + 1 == len(objs) else [objs[0], objs[-1]]
-      if len(chain_objs) != rec['nl'] + 1:
-        raise common.MachineryError('chain length %d, specification says %d' % (len(chain_objs) - 1, rec['nl']))
+      # ---- the partial chain as written; layer 1 is the outermost object.  Built anew for every call, the
+      # way generated code evaluates `obj.meth` / `functools.partial(...)` expressions again: a bound method
+      # is a new object each time (the negative cache must remember the function, not that object).
+      def build():
+        base = R.base
+        if inspect.ismethod(base):
+          base = getattr(base.__self__, base.__name__)
+        g = base
+        objs = [base]
+        layers = rec['layers']
+        for j in range(len(layers), 0, -1):
+          L = layers[j - 1]
+          sp = [pval('s%d' % j)] if L['np'] else []
+          sk = {R.kwname[key]: kval(key, 's%d%s' % (j, key)) for key in L['ks']}
+          g = functools.partial(g, *sp, **sk)
+          if rec['nest'] == 'kept' and j == 2:
+            g.vf_keep = True          # an instance attribute stops functools from flattening
+          objs.insert(0, g)
+        _check_chain(rec, objs, base, R, pval, kval)     # model validation: CPython built the specified chain
+        chain_objs = objs if rec['nl'] + 1 == len(objs) else [objs[0], objs[-1]]
+        if len(chain_objs) != rec['nl'] + 1:
+          raise common.MachineryError('chain length %d, specification says %d' % (len(chain_objs) - 1, rec['nl']))
+        return g, objs, chain_objs, [(o.func, o.args, dict(o.keywords)) for o in objs[:-1]]
+
+      f, objs, chain_objs, snapshot = build()
 
       def call_args():
         a = tuple(pval(t) for t in ['c1', 'c2'][:rec['npos']])
@@ -635,6 +644,7 @@ class Host(_HostBase):
         exp = rec['calls'][callno - 1]
         nm = names[callno - 1]
         fscope = scopes[nm]
+        f, objs, chain_objs, snapshot = build()
         args, kwargs = call_args()
         if generated:
           cfn, cargs = _pick_caller(rec, args, kwargs, int(cid) % 2)
@@ -738,7 +748,7 @@ def _norm(x, R):
   return x
 
 
-def _check_chain(rec, objs, R, pval, kval):
+def _check_chain(rec, objs, base, R, pval, kval):
   """functools.partial built the objects the specification's `Chain` describes."""
   if len(objs) == 1:
     return
@@ -746,7 +756,7 @@ def _check_chain(rec, objs, R, pval, kval):
   exp = rec['chain'][0]
   want_args = tuple(pval(t) for t in exp['pos']) if rec['instr'] else None
   want_kw = {R.kwname[k]: kval(k, t) for k, t in exp['kw']}
-  if rec['nl'] == 1 and outer.func is not R.base:
+  if rec['nl'] == 1 and outer.func is not base:
     raise common.MachineryError('model/CPython disagreement: partial chain not flattened as specified')
   if rec['nl'] == 2 and outer.func is not objs[1]:
     raise common.MachineryError('model/CPython disagreement: partial chain flattened, specification keeps it')
